@@ -24,7 +24,7 @@ RULE = (
     "+ one query (root Parent/Child/Node; boolean filter tree; optional inner/outer join along a relationship; DISTINCT; total ORDER BY; LIMIT/OFFSET) "
     "+ 3-7 assignments (strategy per relationship path of depth<=2 from default/lazyload/joinedload outer+inner/subqueryload/selectinload(chunksize)/immediateload; "
     "column options defer/undefer/undefer_group/load_only on root or path; yield_per; forced unique(); legacy Query). "
-    "pairs: every ordered pair of strategies on every nested path (a, a.b) x 5 query shapes on two fixed data sets; chunk: selectin key-chunk boundary (499..1001 keys). "
+    "pairs: every ordered pair of strategies on every nested path (a, a.b) x 4 (quick) / 5 (thorough) query shapes on two fixed data sets; chunk: selectin key-chunk boundary (500/501/1001 keys; thorough also 499/1000). "
     "Non-trivial: some assignment has LIMIT/OFFSET or DISTINCT together with an eager-loaded collection, or two different non-default strategies on nested paths; "
     "distinct = canonical JSON of the case"
 )
@@ -146,7 +146,7 @@ def _deferred_cols(target, kind, chosen):
     return set()
 
 
-def norm_assignment(root, a, model, pinned=False):
+def norm_assignment(root, a, model, pinned=False, q=None):
     """resolve indices; degrade innerjoin outside its documented domain; decide unique / yield_per"""
     paths = PATHS[root]
     strat = {}
@@ -167,6 +167,20 @@ def norm_assignment(root, a, model, pinned=False):
                 else:
                     strat[p1 + (("Node", "parent"),)] = "joined"
                     excluded.append("nested innerjoin joinedload next to a sibling joinedload on a self-referential mapper (known finding)")
+    distinct_trigger = False
+    if q is not None and (q.get("limit") is not None or q.get("offset") is not None) and not q.get("distinct") \
+            and q.get("join") is not None and oq.RELS[root][q["join"][0]][1]:
+        # known finding: subqueryload whose leftmost relationship is many-to-one adds DISTINCT to the re-run of the
+        # original query, so LIMIT/OFFSET select different rows when that query returns duplicate entity rows (join)
+        for p in paths:
+            if strat[p] != "subquery" or oq.RELS[p[0][0]][p[0][1]][2] != "m2o":
+                continue
+            if len(p) == 1 or strat[p[:1]] in ("joined", "joined_inner", "subquery"):
+                if pinned:
+                    distinct_trigger = True
+                else:
+                    strat[p] = "selectin"
+                    excluded.append("subqueryload from a many-to-one with LIMIT/OFFSET over duplicate rows (known finding)")
     colopts = []
     for pi, kind, cols in a.get("co") or []:
         if pi < 0:
@@ -228,7 +242,7 @@ def norm_assignment(root, a, model, pinned=False):
     if need_unique or no_yield or a.get("uq"):
         yp = 0
     return {"strat": strat, "colopts": uniq, "need_unique": need_unique, "unique": need_unique or bool(a.get("uq")),
-            "excluded": excluded, "fk_trigger": trigger, "splice_trigger": splice_trigger,
+            "excluded": excluded, "fk_trigger": trigger, "splice_trigger": splice_trigger, "distinct_trigger": distinct_trigger,
             "yp": yp, "chunk": a.get("chunk") or 0, "legacy": bool(a.get("legacy")), "incr": bool(a.get("incr"))}
 
 
@@ -424,7 +438,7 @@ def judge(case, ctx, data, q, assignments, force_nontrivial=False):
     root = q["root"]
     q = norm_query(q)
     model = oq.Model(data)
-    nas = [norm_assignment(root, a, model, pinned=bool(case.get("pinned"))) for a in assignments]
+    nas = [norm_assignment(root, a, model, pinned=bool(case.get("pinned")), q=q) for a in assignments]
     for na in nas:
         for reason in na["excluded"]:
             ctx.exclude(reason)
@@ -478,6 +492,7 @@ def judge(case, ctx, data, q, assignments, force_nontrivial=False):
             raw.close()
         if len(prim) != len(set(prim)):
             ctx.info("primary-has-duplicates")
+        ctx.info("primary-rows:" + ("0" if not prim else "1-2" if len(prim) < 3 else "3+"))
         for na in nas:
             exp = expected_for(model, root, prim, na)
             try:
@@ -501,6 +516,8 @@ def judge(case, ctx, data, q, assignments, force_nontrivial=False):
                 sig = f"C40/{kind}/{root}{loc[4:]}/{st_}/{feats}"
                 if na["splice_trigger"]:
                     sig = "C40/joinedload/nested-innerjoin-spliced-onto-sibling/self-referential"
+                if na["distinct_trigger"]:
+                    sig = "C40/subqueryload/many-to-one-distinct-changes-limit-window"
                 desc = {k: v for k, v in na.items() if k != "strat"}
                 desc["strat"] = {".".join(s[1] for s in p): v for p, v in na["strat"].items() if v != "default"}
                 raise Violation(
@@ -538,25 +555,33 @@ def _assignment(draw, npaths):
     }
 
 
+_DATA = oq.datasets()
+_ASSIGN = {r: st.lists(_assignment(len(PATHS[r])), min_size=3, max_size=7) for r in ROOTS}
+_WHERE = {}
+for _r in ROOTS:
+    _WHERE[(_r, None)] = st.one_of(st.none(), oq.exprs(oq.typed_cols(_r), [], max_leaves=3))
+    for _rel in JOINS[_r]:
+        _WHERE[(_r, _rel)] = st.one_of(st.none(), oq.exprs(oq.typed_cols(_r), oq.typed_cols(oq.RELS[_r][_rel][0]), max_leaves=3))
+_ORDER = st.lists(st.tuples(st.sampled_from(["r", "j"]), st.integers(0, 3), st.booleans()).map(list), max_size=2)
+_JOIN = st.one_of(st.none(), st.tuples(st.integers(0, 1), st.booleans()).map(list))
+
+
 @st.composite
 def _cases(draw):
-    data = draw(oq.datasets())
+    data = draw(_DATA)
     root = draw(st.sampled_from(["Parent", "Parent", "Child", "Node"]))
-    join = draw(st.one_of(st.none(), st.tuples(st.integers(0, 1), st.booleans()).map(list)))
-    jcls = None
-    if join is not None:
-        jrel = JOINS[root][join[0] % len(JOINS[root])]
-        jcls = oq.RELS[root][jrel][0]
-    where = draw(st.one_of(st.none(), oq.exprs(oq.typed_cols(root), oq.typed_cols(jcls) if jcls else [], max_leaves=3)))
+    join = draw(_JOIN)
+    jrel = JOINS[root][join[0] % len(JOINS[root])] if join is not None else None
+    where = draw(_WHERE[(root, jrel)])
     window = draw(st.sampled_from(["none", "limit", "limit", "limit+offset", "offset"]))
     q = {
         "root": root, "join": join, "where": where,
         "distinct": draw(st.sampled_from([False, False, True])),
-        "order": draw(st.lists(st.tuples(st.sampled_from(["r", "j"]), st.integers(0, 3), st.booleans()).map(list), max_size=2)),
-        "limit": draw(st.integers(0, 5)) if "limit" in window else None,
-        "offset": draw(st.integers(0, 3)) if "offset" in window else None,
+        "order": draw(_ORDER),
+        "limit": draw(st.sampled_from([2, 3, 1, 5, 0])) if "limit" in window else None,
+        "offset": draw(st.sampled_from([1, 0, 2, 3])) if "offset" in window else None,
     }
-    assignments = draw(st.lists(_assignment(len(PATHS[root])), min_size=3, max_size=7))
+    assignments = draw(_ASSIGN[root])
     return {"data": data, "q": q, "as": assignments}
 
 
@@ -600,6 +625,8 @@ def _pair_cases(tier):
             if len(p) != 2:
                 continue
             for shape in sorted(_SHAPES):
+                if tier == "quick" and shape == "plain":
+                    continue  # quick: the four windowed shapes; thorough: all five
                 for s1 in range(len(STRATS)):
                     yield {"root": root, "path": [list(x) for x in p], "shape": shape, "s1": s1}
 
@@ -637,7 +664,7 @@ def _total_data():
 
 # ------------------------------------------------------------------ enumerated: selectin key-chunk boundary (>500 keys)
 def _chunk_cases(tier):
-    for n in (499, 500, 501, 1000, 1001):
+    for n in ((500, 501, 1001) if tier == "quick" else (499, 500, 501, 1000, 1001)):
         for rel in ("Parent.children", "Child.parent", "Parent.tags", "Node.children"):
             yield {"n": n, "rel": rel}
 
@@ -684,7 +711,7 @@ def check_chunk(case, ctx):
 
 def subs(tier):
     return [
-        Generated("gen", check_gen, strategy=_cases(), quick=700, thorough=12000),
+        Generated("gen", check_gen, strategy=_cases(), quick=640, thorough=12000, budget_s_quick=22.0),
         Enumerated("pairs", check_pairs, cases=_pair_cases),
         Enumerated("chunk", check_chunk, cases=_chunk_cases),
     ]
